@@ -208,6 +208,22 @@ def check(ctx, clean, dirty, replay):
             return True
         ctx.violation(f"C19:solve-after-prune-{type(e).__name__}", f"solving the pruned solver raised {type(e).__name__}: {str(e)[:70]}", replay)
         return False
+    # the executable model: one level of prune on the description with the dead branches (HNet.pruneLevel), solved; it answers only
+    # when no dead branch sits deeper than the top level (an empty solver does not solve, in the model as in the code)
+    if dirty.kind != "leaf" and hier.count_placements(dirty) <= 10:
+        ans = ctx.driver.ask({"op": "hprune", "tree": hier.tree_json_any(dirty)})
+        if "T" in ans and sorted(ans["pins"]) == sorted(names):
+            n_ = len(names)
+            o_ = [ans["pins"].index(x) for x in names]
+            Tm = gen.json_mat_np([z for row in ans["T"] for z in row], n_, n_) if n_ else np.zeros((0, 0), complex)
+            Tm = Tm[np.ix_(o_, o_)] if n_ else Tm
+            ctx.tag("model:hprune", "hyp:WFTree" if ans.get("wftree") else "hyp:outside:WFTree")
+            if Tm.size and float(np.max(np.abs(Tm - T))) > 1e-9 * max(1.0, cond):
+                ctx.disagreement("C19.model.hprune", "the model's solve of the pruned level differs from the code's solve after prune()", replay)
+        elif "kept" in ans:
+            ctx.tag("model:hprune-not-solvable-one-level")
+        else:
+            ctx.disagreement("C19.model.hprune", f"model: {str(ans)[:80]}", replay)
     err = float(np.max(np.abs(T - Tref))) if T.size else 0.0
     if err > 1e-9 * max(1.0, cond):
         ctx.violation("C19:matrix-changed", f"pruned solver differs from the clean build by {err:.3e}", replay)
